@@ -59,13 +59,16 @@ func (s *c07LogSink) snapshot() []string {
 
 const c07Alnum = "abcdefghijklmnopqrstuvwxyzABCDEFGHIJKLMNOPQRSTUVWXYZ0123456789"
 
-// c07Marker: high-entropy token, so that a substring hit can only be a leak.
-func c07Marker(t *rapid.T, label string) string {
-	b := make([]byte, 18)
+// c07Marker: high-entropy token, so that a substring hit can only be a leak. The serial number keeps
+// the markers of one case pairwise different (and, having equal length, not substrings of each other)
+// even when shrinking drives all random characters to 'a'.
+func c07Marker(t *rapid.T, label string, serial *int) string {
+	b := make([]byte, 16)
 	for i := range b {
 		b[i] = c07Alnum[rapid.IntRange(0, len(c07Alnum)-1).Draw(t, label)]
 	}
-	return "Mk" + string(b)
+	*serial++
+	return fmt.Sprintf("Mk%02dx%s", *serial, b)
 }
 
 func c07RandomCase(t *rapid.T, name string) (string, string) {
@@ -97,15 +100,15 @@ type c07Hdr struct {
 	secret   bool
 }
 
-func c07CredValue(t *rapid.T, name string) (string, []string) {
-	m := c07Marker(t, "m")
+func c07CredValue(t *rapid.T, serial *int) (string, []string) {
+	m := c07Marker(t, "m", serial)
 	switch rapid.IntRange(0, 4).Draw(t, "valshape") {
 	case 0:
 		return m, []string{m}
 	case 1:
 		return "Bearer " + m, []string{m}
 	case 2:
-		m2 := c07Marker(t, "m2")
+		m2 := c07Marker(t, "m2", serial)
 		return "session=" + m + "; theme=dark; token=" + m2, []string{m, m2}
 	case 3:
 		return "Digest username=\"u\", response=\"" + m + "\"", []string{m}
@@ -117,6 +120,7 @@ func c07CredValue(t *rapid.T, name string) (string, []string) {
 func c07HeadersGen(t *rapid.T) ([]c07Hdr, []string) {
 	var hs []c07Hdr
 	var classes []string
+	serial := 0
 	n := rapid.IntRange(1, 6).Draw(t, "nhdr")
 	for i := 0; i < n; i++ {
 		if rapid.IntRange(0, 3).Draw(t, "secret?") != 3 {
@@ -124,7 +128,7 @@ func c07HeadersGen(t *rapid.T) ([]c07Hdr, []string) {
 			mult := rapid.SampledFrom([]int{1, 1, 2, 3}).Draw(t, "mult")
 			for k := 0; k < mult; k++ {
 				wn, cs := c07RandomCase(t, name)
-				v, ms := c07CredValue(t, name)
+				v, ms := c07CredValue(t, &serial)
 				hs = append(hs, c07Hdr{wn, v, ms, true})
 				classes = append(classes, "cred-"+name, "case-"+cs)
 			}
@@ -134,7 +138,7 @@ func c07HeadersGen(t *rapid.T) ([]c07Hdr, []string) {
 		} else {
 			name := rapid.SampledFrom(c07PlainHeaders).Draw(t, "pname")
 			wn, _ := c07RandomCase(t, name)
-			m := c07Marker(t, "pm")
+			m := c07Marker(t, "pm", &serial)
 			hs = append(hs, c07Hdr{wn, "plain-" + m, []string{m}, false})
 			classes = append(classes, "plain")
 		}
